@@ -9,7 +9,7 @@ import subprocess
 import codec
 import kv
 
-ALPHA = ['o 0 0 0', 'o 0 1 0', 'o 1 1 0', 'o 1 0 0', 'o 2 0 0 child', 'o 2 1 1 child', 'c 0', 'c 1', 'c 2', 'p 0', 'p 1',
+ALPHA = ['o 0 0 0', 'o 0 1 0', 'o 1 1 0', 'o 1 0 0', 'o 2 0 0 child', 'o 2 1 1 child', 'o 0 1 2', 'o 1 1 2', 'c 0', 'c 1', 'c 2', 'p 0', 'p 1',
          'corrupt 1', 'corrupt 0', 'q 0', 'q 1', 'logsum']
 
 
@@ -31,6 +31,13 @@ def gen_cases(rng, tier):
             j = rng.randrange(len(seq))
             seq[j:j] = ['rmdir 1', rng.choice(['o 0 0 0', 'o 1 1 0']), 'rmdir 0']
         cases.append(seq)
+    # a torn tail on the head log: read-only opens (plain, Check, Recover, also from a child process) must refuse or
+    # ignore it, never repair it
+    RO = ['o 0 1 0', 'o 0 1 1', 'o 0 1 2', 'o 1 1 2', 'o 1 1 1', 'o 2 1 2 child', 'o 2 1 0 child', 'c 0', 'c 1', 'c 2', 'q 0', 'p 0', 'd 1', 'logsum']
+    for i in range(40 if tier == 'quick' else 800):
+        mid = [rng.choice(RO) for _ in range(rng.randrange(3, 8))]
+        pre = ['corrupt 1'] if rng.random() < 0.3 else []
+        cases.append(['tear 1', 'logsum'] + pre + mid + ['logsum', 'c 0', 'c 1', 'c 2', 'tear 0'] + (['corrupt 0'] if pre else []))
     out = []
     for i, seq in enumerate(cases):
         # corrupt/rmdir only when nothing is open would be cleaner, but the model handles any order
@@ -112,6 +119,8 @@ def c19_extra(pid, tier, seed):
                     if lastsum is not None and ro_only_since and s != lastsum:
                         bad = 'log files changed although only read-only handles were used since the last checksum'
                     lastsum, ro_only_since = s, True
+                elif f[0] == 'tear':
+                    lastsum = None
                 elif f[0] in ('corrupt', 'prep', 'rmdir'):
                     pass
                 if bad:
